@@ -5634,9 +5634,10 @@ type getThisDynamic struct{}
 func (getThisDynamic) exec(vm *vm) {
 	for stash := vm.stash; stash != nil; stash = stash.outer {
 		if stash.obj == nil {
-			if v, exists := stash.getByName(thisBindingName); exists {
-				vm.push(v)
-				vm.pc++
+			if idx, exists := stash.names[thisBindingName]; exists {
+				// same check as loadThisStash / loadThisStack: in a derived constructor 'this' is
+				// uninitialised (nil) until super() returns
+				vm.loadThis(stash.values[idx&^maskTyp])
 				return
 			}
 		}
